@@ -46,9 +46,9 @@ type schedReply struct {
 type sched struct {
 	mu       sync.Mutex
 	byID     map[int64]*blocker
-	wakes    []int    // wake-sent events since last drain (ws ids)
-	posted   []int64  // unblock-posted client ids
-	dropped  []int64  // unblock-dropped client ids
+	wakes    []int   // wake-sent events since last drain (ws ids)
+	posted   []int64 // unblock-posted client ids
+	dropped  []int64 // unblock-dropped client ids
 	emu      *kit.Emu
 	srv      *model.Server
 	sess     []*model.Session // [0..n) blockers, then actor sessions
